@@ -1,0 +1,66 @@
+//go:build verif
+
+// Verification accessors (build tag "verif"): read-only views of the heap arrays.
+
+package eviction
+
+// VerifEntryLFU is a copy of one cell of CacheLFU.entries; Nil marks a nil cell.
+type VerifEntryLFU struct {
+	Nil       bool
+	Key       string
+	Count     int
+	AddedTime int64
+	Index     int
+}
+
+// VerifEntryLRU is a copy of one cell of CacheLRU.entries; Nil marks a nil cell.
+type VerifEntryLRU struct {
+	Nil      bool
+	Key      string
+	UnixTime int64
+	Index    int
+}
+
+// VerifEntries copies the heap array in slice order. The caller holds no lock.
+func (cache *CacheLFU) VerifEntries() []VerifEntryLFU {
+	out := make([]VerifEntryLFU, len(cache.entries))
+	for i, e := range cache.entries {
+		if e == nil {
+			out[i] = VerifEntryLFU{Nil: true}
+		} else {
+			out[i] = VerifEntryLFU{Key: e.key, Count: e.count, AddedTime: e.addedTime, Index: e.index}
+		}
+	}
+	return out
+}
+
+// VerifKeys copies the membership map.
+func (cache *CacheLFU) VerifKeys() []string {
+	out := make([]string, 0, len(cache.keys))
+	for k := range cache.keys {
+		out = append(out, k)
+	}
+	return out
+}
+
+// VerifEntries copies the heap array in slice order. The caller holds no lock.
+func (cache *CacheLRU) VerifEntries() []VerifEntryLRU {
+	out := make([]VerifEntryLRU, len(cache.entries))
+	for i, e := range cache.entries {
+		if e == nil {
+			out[i] = VerifEntryLRU{Nil: true}
+		} else {
+			out[i] = VerifEntryLRU{Key: e.key, UnixTime: e.unixTime, Index: e.index}
+		}
+	}
+	return out
+}
+
+// VerifKeys copies the membership map.
+func (cache *CacheLRU) VerifKeys() []string {
+	out := make([]string, 0, len(cache.keys))
+	for k := range cache.keys {
+		out = append(out, k)
+	}
+	return out
+}
